@@ -3,6 +3,7 @@ use vbase::engine::{Ctx, Sub};
 pub mod c02;
 pub mod c03;
 pub mod c05;
+pub mod c06;
 pub mod c07;
 pub mod c08;
 pub mod c09;
@@ -23,6 +24,7 @@ pub fn all() -> Vec<Prop> {
         Prop { id: "C08", run: c08::run, subs: c08::subs, rule: c08::RULE, assumptions: c08::ASSUMPTIONS },
         Prop { id: "C09", run: c09::run, subs: c09::subs, rule: c09::RULE, assumptions: c09::ASSUMPTIONS },
         Prop { id: "C05", run: c05::run, subs: c05::subs, rule: c05::RULE, assumptions: c05::ASSUMPTIONS },
+        Prop { id: "C06", run: c06::run, subs: c06::subs, rule: c06::RULE, assumptions: c06::ASSUMPTIONS },
     ]
 }
 
